@@ -72,10 +72,52 @@ Process(nodes, ci) ==
     ELSE Process(nodes, ci + 1)
 
 Emph(l) == Process(Tokenize(l, 1), 1)
-
 Repeat(ch, n) == [k \in 1..n |-> ch]
+
+(* ---- code spans and backslash escapes (spec sections 6.1, 6.3); they bind tighter than emphasis ------------------- *)
+IsPunct2(c) == c \in {"*", "_", "`", "\\"}
+TextNode(s) == [t |-> "text", ch |-> "", n |-> 0, orig |-> 0, co |-> FALSE, cc |-> FALSE, s |-> s, tag |-> ""]
+DelimNode2(l, i, j) ==
+  LET ch == l[i]
+      prev == IF i = 1 THEN "" ELSE l[i - 1]
+      next == IF j = Len(l) THEN "" ELSE l[j + 1]
+      lf == ~IsWs(next) /\ (~IsPunct2(next) \/ IsWs(prev) \/ IsPunct2(prev))
+      rf == ~IsWs(prev) /\ (~IsPunct2(prev) \/ IsWs(next) \/ IsPunct2(next))
+      co == IF ch = "*" THEN lf ELSE lf /\ (~rf \/ IsPunct2(prev))
+      cc == IF ch = "*" THEN rf ELSE rf /\ (~lf \/ IsPunct2(next))
+  IN [t |-> "delim", ch |-> ch, n |-> j - i + 1, orig |-> j - i + 1, co |-> co, cc |-> cc, s |-> <<>>, tag |-> ""]
+
+(* start index of the next backtick run of exactly n backticks at or after position i, or 0 *)
+RECURSIVE FindCloser(_, _, _)
+FindCloser(l, i, n) ==
+  IF i > Len(l) THEN 0
+  ELSE IF l[i] = "`" THEN LET j == RunEnd(l, i, "`") IN IF j - i + 1 = n THEN i ELSE FindCloser(l, j + 1, n)
+  ELSE FindCloser(l, i + 1, n)
+AllSpaces(s) == \A k \in 1..Len(s) : s[k] = " "
+CodeContent(s) == IF Len(s) >= 2 /\ s[1] = " " /\ s[Len(s)] = " " /\ ~AllSpaces(s) THEN SubSeq(s, 2, Len(s) - 1) ELSE s
+RECURSIVE PlainEnd(_, _)
+PlainEnd(l, i) == IF i < Len(l) /\ ~IsPunct2(l[i + 1]) THEN PlainEnd(l, i + 1) ELSE i
+
+RECURSIVE Scan2(_, _)
+Scan2(l, i) ==
+  IF i > Len(l) THEN <<>>
+  ELSE IF l[i] = "\\" THEN
+         IF i < Len(l) /\ IsPunct2(l[i + 1]) THEN <<TextNode(<<l[i + 1]>>)>> \o Scan2(l, i + 2)       \* escaped punctuation: literal
+         ELSE <<TextNode(<<"\\">>)>> \o Scan2(l, i + 1)
+  ELSE IF l[i] = "`" THEN
+         LET j == RunEnd(l, i, "`")
+             n == j - i + 1
+             c == FindCloser(l, j + 1, n) IN
+         IF c = 0 THEN <<TextNode(Repeat("`", n))>> \o Scan2(l, j + 1)
+         ELSE <<[TextNode(CodeContent(SubSeq(l, j + 1, c - 1))) EXCEPT !.t = "code"]>> \o Scan2(l, c + n)
+  ELSE IF IsDelim(l[i]) THEN LET j == RunEnd(l, i, l[i]) IN <<DelimNode2(l, i, j)>> \o Scan2(l, j + 1)
+  ELSE LET j == PlainEnd(l, i) IN <<TextNode(SubSeq(l, i, j))>> \o Scan2(l, j + 1)
+
+Inline2(l) == Process(Scan2(l, 1), 1)
+
 Piece(nd) ==
   CASE nd.t = "text" -> nd.s
+    [] nd.t = "code" -> <<"<code>">> \o nd.s \o <<"</code>">>
     [] nd.t = "delim" -> Repeat(nd.ch, nd.n)
     [] nd.t = "open" -> <<IF nd.tag = "em" THEN "<em>" ELSE "<strong>">>
     [] nd.t = "close" -> <<IF nd.tag = "em" THEN "</em>" ELSE "</strong>">>
